@@ -1,5 +1,6 @@
 import argparse
 import io
+import copy
 import logging
 import os
 import shutil
@@ -55,6 +56,9 @@ class OutputManifest:
 
 
 def remove_aliases_from_api(api):
+    # Work on a copy: backends that preserve aliases may be run on the same
+    # Api object afterwards (or before, depending on their class names).
+    api = copy.deepcopy(api)
     # Resolve nested aliases from each namespace first. This way, when we replace an alias with
     # its source later on, it too is alias free.
     for namespace in api.namespaces.values():
